@@ -42,7 +42,7 @@ def finding_for(prop, failure, findings):
     for f in findings:
         if f.get('status') != 'open' or f['property'] != prop:
             continue
-        if f['obligation'] != failure['obligation']:
+        if f['obligation'] != failure['obligation'] and not (f.get('obligation_regex') and re.fullmatch(f['obligation_regex'], failure['obligation'])):
             continue
         site = f.get('site')
         if site and site not in (failure.get('source_line') or '') and site not in (failure.get('message') or ''):
@@ -55,7 +55,7 @@ def slug(s):
     return re.sub(r'[^A-Za-z0-9_.-]+', '_', s)[:120]
 
 
-def run_units(prop, tier, jobs):
+def run_units(prop, tier, jobs, findings=()):
     spec = PROPERTIES[prop]
     results = []
     seeds = (1, 2, 3) if tier == 'thorough' else ()
@@ -65,7 +65,8 @@ def run_units(prop, tier, jobs):
             mod = importlib.import_module(modname)
             unit = mod.build(REPO)
             if isinstance(unit, klib.KaniUnit):
-                r = klib.run_kani_unit(unit, REPO, tier=tier, jobs=jobs, prop=prop)
+                r = klib.run_kani_unit(unit, REPO, tier=tier, jobs=jobs, prop=prop,
+                                       known=lambda f: any(finding_for(p_, f, findings) for p_ in f.get('props', [prop])))
             else:
                 r = vlib.run_unit(unit, os.path.join(WORK, prop), tier=tier, seeds=seeds)
             r['_unit'] = unit
@@ -209,7 +210,7 @@ def check(prop, tier, jobs):
         print('property %s is not claimed (see MANIFEST.json not_applicable)' % prop)
         return 2
     findings = load_findings()
-    results = run_units(prop, tier, jobs)
+    results = run_units(prop, tier, jobs, findings)
     viols, known, undecided = [], [], []
     for r in results:
         u = r.get('_unit')
